@@ -346,8 +346,9 @@ structure Flags where
   readAttrs : List AttrName
   readArrs : List ArrName
   readVs : List (VName × Bool)
-  /-- `SimpleProcessTensor.set_initial_tensor` as written: argument ↦ stored `_initial_tensor` -/
-  simpleSetInitial : Option Tensor → Option Tensor
+  /-- `SimpleProcessTensor.set_initial_tensor` as written: (previous `_initial_tensor`,
+      argument) ↦ stored `_initial_tensor` -/
+  simpleSetInitial : Option Tensor → Option Tensor → Option Tensor
   /-- PtTempo: (`bool(process_tensor_file)`, `isinstance(process_tensor_file, Text)`) ↦ class -/
   ptTempoChoice : Bool → Bool → PtChoice
   /-- PtTempo `_init_file_process_tensor(overwrite)` ↦ mode -/
@@ -367,7 +368,7 @@ structure Meta where
 
 /-- `SimpleProcessTensor` -/
 structure SimplePT where
-  meta : Meta
+  info : Meta
   initial : Option Tensor := none
   mpos : List (Option Tensor) := []
   caps : List (Option Tensor) := []
@@ -380,7 +381,7 @@ def listSetGrow {α} (l : List (Option α)) (step : Nat) (x : α) : List (Option
 namespace SimplePT
 
 def setInitial (F : Flags) (pt : SimplePT) (t : Option Tensor) : SimplePT :=
-  { pt with initial := F.simpleSetInitial t }
+  { pt with initial := F.simpleSetInitial pt.initial t }
 
 def setMpo (pt : SimplePT) (step : Nat) (t : Option Tensor) : SimplePT :=
   { pt with mpos := listSetGrow pt.mpos step (npArray t) }
@@ -546,7 +547,7 @@ def exportW (F : Flags) (env : Env) (d : Disk) (pt : SimplePT) (overwrite : Bool
     Except OpenErr W :=
   match F.exportSteps with
   | .create :: rest =>
-    match createFile F env d (F.exportMode overwrite) pt.meta with
+    match createFile F env d (F.exportMode overwrite) pt.info with
     | .ok w => .ok (rest.foldl (exportStep F pt) w)
     | .error e => .error e
   | _ => .error .badMode
@@ -621,7 +622,7 @@ def readMeta (c : H5) : Option Meta :=
 
 /-- a `FileProcessTensor` opened for reading -/
 structure FilePT where
-  meta : Meta
+  info : Meta
   c : H5
   deriving DecidableEq, Repr
 
@@ -704,8 +705,8 @@ def simpleOfFile (F : Flags) (p : FilePT) : Except GetErr SimplePT :=
       match capsLoop p 0 (capLen p + 1) with
       | .error e => .error e
       | .ok caps =>
-        .ok { meta := p.meta
-              initial := F.simpleSetInitial ini
+        .ok { info := p.info
+              initial := F.simpleSetInitial none ini
               mpos := mpos.map (fun t => some (npArray t))
               caps := caps.map (fun t => some (npArray t)) }
 
